@@ -967,6 +967,34 @@ func registerDBModels() {
 			return &CV{T: App(SBool, "unicode."+nm, x.cvTerm(v, &CV{T: BVConst(0, 32)})), Ty: types.Typ[types.Bool]}, nil
 		}
 	}
+	contractBuiltins["fetched"] = func(x *Exec, env *CEnv, n *CCall) (*CV, error) {
+		v, err := x.eval(env, n.Args[0])
+		if err != nil {
+			return nil, err
+		}
+		x.sc.Decl("fn:fetched", "(declare-fun fetched (Slice) Bool)")
+		return &CV{T: App(SBool, "fetched", x.cvTerm(v, nil)), Ty: types.Typ[types.Bool]}, nil
+	}
+	contractBuiltins["has"] = func(x *Exec, env *CEnv, n *CCall) (*CV, error) {
+		m, err := x.eval(env, n.Args[0])
+		if err != nil {
+			return nil, err
+		}
+		mt, ok := m.Ty.Underlying().(*types.Map)
+		if !ok {
+			return nil, fmt.Errorf("has: not a map")
+		}
+		k, err := x.eval(env, n.Args[1])
+		if err != nil {
+			return nil, err
+		}
+		dom, _ := x.mapHeaps(env.st, mt)
+		if env.specHeaps != nil {
+			env.specHeaps[x.mapDomName(mt)] = true
+		}
+		mtm := x.cvTerm(m, nil)
+		return &CV{T: And(Not(Eq(mtm, IntConst(0))), Select(Select(dom, mtm), x.cvTerm(k, &CV{T: Term{"", x.sortOf(mt.Key())}, Ty: mt.Key()}))), Ty: types.Typ[types.Bool]}, nil
+	}
 	contractBuiltins["hashof"] = func(x *Exec, env *CEnv, n *CCall) (*CV, error) {
 		v, err := x.eval(env, n.Args[0])
 		if err != nil {
